@@ -97,7 +97,7 @@ def canon(s):
 
 
 def gen_history(rng):
-    K = rng.choice([2, 3])
+    K = rng.choice([2, 3, 3, 4])
     return {"K": K, "lam": rng.choice(["s", "a"]), "beta": rng.choice(["s", "a"]),
             "seed": rng.randrange(2 ** 31), "len": rng.randint(4, 25), "m": rng.choice([2, 3, 5])}
 
@@ -191,6 +191,16 @@ def play(ctx, hist, cm, gl, cla, arguments, model_state):
             lab = balanced_labels(r, K, empty, hist.get("m", 3))
             if fl["lab"] and r.random() < 0.15:
                 lab = [int(x) for x in st.point_labels]      # equal content: the setter must be a no-op
+            elif fl["lab"] and empty is None and r.random() < 0.45:
+                # a NEAR-IDENTICAL labelling: one or two points moved between two clusters, every other cluster keeps
+                # its points — membership must still be re-derived for ALL clusters (the state's lists may have been
+                # changed behind its back through a shallow copy that shares its cluster objects)
+                lab = [int(x) for x in st.point_labels]
+                a_, b_ = r.sample(range(K), 2)
+                idx = [i_ for i_, x_ in enumerate(lab) if x_ == a_]
+                for i_ in r.sample(idx, min(len(idx), r.choice([1, 2]))) if len(idx) > 2 else []:
+                    lab[i_] = b_
+                kinds.add("assign-near")
             keep.append(lab)
             changed = (st._point_labels is None) or ([int(x) for x in st._point_labels] != lab)
             st.point_labels = lab
